@@ -9,7 +9,8 @@ Local Open Scope N_scope.
 Record hcase := {
   h_frames : list (nat * hframe);
   h_got : list (list (N * N * N));   (* per connection: type, action, id *)
-  h_probes : N * N }.                (* directory, generic: 0 no answer, 2 reply, 3 error *)
+  h_probes : N * N * N;              (* directory, generic object 1, generic object 2: 0 no answer, 2 reply, 3 error *)
+  h_obj2 : N }.                      (* id of the second object of the generic service *)
 
 Definition fr (t s o a i pl : N) : hframe := {| f_type := t; f_svc := s; f_obj := o; f_act := a; f_id := i; f_pl := pl |}.
 
@@ -51,12 +52,13 @@ Definition probe_code (g : hcfg) (st : hstate) (o : nat) : N :=
   end.
 
 Definition hcase_ok (g : hcfg) (k : hcase) : bool :=
-  let st := fold_left (send_settle g) (h_frames k) (connect g (List.length (h_got k)) hinit) in
+  let st := fold_left (send_settle g) (h_frames k) (connect g (List.length (h_got k)) (hinit_of (h_obj2 k))) in
   forallb (fun p => match nth_error (conns st) (fst p) with
                     | Some x => eqb_lt (received x) (snd p)
                     | None => false
                     end) (combine (seq 0 (List.length (h_got k))) (h_got k)) &&
-  (probe_code g st 1 =? fst (h_probes k)) && (probe_code g st 2 =? snd (h_probes k)).
+  (probe_code g st 1 =? fst (fst (h_probes k))) && (probe_code g st 2 =? snd (fst (h_probes k))) &&
+  (probe_code g st 3 =? snd (h_probes k)).
 
 Fixpoint bad_idx {A} (f : A -> bool) (l : list A) (i : nat) : list nat :=
   match l with
